@@ -29,6 +29,8 @@ func main() {
 		os.Exit(core.RunParent(os.Args[2], os.Args[3]))
 	case "worker":
 		os.Exit(core.RunWorker(os.Args[2:]))
+	case "aux":
+		os.Exit(core.RunAux(os.Args[2:]))
 	case "replaycase":
 		os.Exit(core.RunReplayCase(os.Args[2:]))
 	case "replay":
